@@ -119,11 +119,28 @@ class Ctx:
 # parallel shards
 # --------------------------------------------------------------------------------------------
 
+def preload():
+    """Import the library and every module of the harness up front.  Hypothesis (>= 6.13x) seeds its generators with constants
+    collected from the source of all locally imported modules, so the set of imported modules must not depend on which shard a
+    worker happened to run first -- otherwise generation is not a pure function of (code, VERIF_SEED)."""
+    import libif
+    libif.lib()
+    import glob
+    for pkg in ("oracle", "gen", "props"):
+        for f in sorted(glob.glob(os.path.join(HERE, pkg, "*.py"))):
+            name = os.path.basename(f)[:-3]
+            if name != "__init__":
+                importlib.import_module(f"{pkg}.{name}")
+    importlib.import_module("c13lib")
+    import hypothesis.stateful  # noqa: F401
+
+
 def _worker_init(path, env):
     os.environ.update(env)
     for p in reversed(path):
         if p not in sys.path:
             sys.path.insert(0, p)
+    preload()
 
 
 def _worker_call(modname, funcname, arg):
@@ -148,6 +165,7 @@ def run_shards(ctx, modname, funcname, args, chunks_hint=None):
            "RAYON_NUM_THREADS": "1", "OMP_NUM_THREADS": "1", "OPENBLAS_NUM_THREADS": "1",
            "VERIF_REPO": os.environ.get("VERIF_REPO", "/repo")}
     if procs == 1:
+        preload()
         for a in args:
             st, res = _worker_call(modname, funcname, a)
             if st == "err":
@@ -285,6 +303,7 @@ def hyp_search(strategy, predicate, rep, seed, max_examples, classify=None, shri
             return
         fails = predicate(case)
         state["n"] += 1
+        state["digest"] = h64(state.get("digest", 0), json.dumps(case, sort_keys=True, default=str))
         nt, tables = classify(case) if classify else (None, {})
         rep.case(nt, case if (state["n"] % 97 == 1) else None)
         for t, k in tables.items():
@@ -293,6 +312,8 @@ def hyp_search(strategy, predicate, rep, seed, max_examples, classify=None, shri
             note_failures(case, fails)
 
     collect()
+    # digest of the generated case sequence: a pure function of (code, seed); lets two runs be compared for determinism
+    rep.extra.setdefault("generation_digests", {})[str(seed)] = state.get("digest", 0)
 
     if shrink and found:
         for key in sorted(found, key=lambda k: found[k][0])[:max_shrink_keys]:
